@@ -213,6 +213,52 @@ pub fn run_replica(ops: &[SOp], local: &mut Local) -> Check {
     Ok(())
 }
 
+/// Crash states: after recovery from every journal prefix of a writer history the persisted
+/// nodes (tree file + entries of the recovered store) must still be complete for the recovered
+/// length and equal to the reference, and header/entry signatures must verify.
+pub fn run_crash_states(ops: &[Op], local: &mut Local) -> Check {
+    use crate::backend::{apply, empty_files};
+    let rec = crate::crash::record(ops)?;
+    // reference over every block the history ever appended
+    let mut reft = RefTree::new();
+    {
+        let mut m = crate::model::ListModel::new();
+        for op in ops {
+            let before = m.len();
+            m = model_after(&m, op);
+            for i in before..m.len() {
+                reft.append(m.blocks[i as usize].as_ref().unwrap());
+            }
+        }
+    }
+    local.evals = local.evals.saturating_sub(1);
+    let mut files = empty_files();
+    for op in &rec.journal[..rec.k0] {
+        apply(&mut files, op);
+    }
+    for k in rec.k0..=rec.journal.len() {
+        if k > rec.k0 {
+            apply(&mut files, &rec.journal[k - 1]);
+        }
+        let disk = Disk::from_files(files.clone());
+        // the recovered instance must open (C02 reports it otherwise; here it is a precondition)
+        match hc::open(&disk) {
+            Ok(Ok(_)) => {}
+            _ => {
+                local.class("crash_states_not_openable(skipped here, C02's business)");
+                continue;
+            }
+        }
+        local.evals += 1;
+        local.class("crash_states_compared");
+        check_persisted(&disk, &reft, true, &format!("after a crash at journal prefix {k}/{} and reopening", rec.journal.len()))?;
+        if k > rec.k0 && k < rec.journal.len() {
+            local.nontrivial(&(hash_of(&ops), k));
+        }
+    }
+    Ok(())
+}
+
 #[derive(Clone, Debug, Serialize, Deserialize)]
 pub struct LenCase {
     pub len: u64,
@@ -255,7 +301,9 @@ pub fn run(ctx: &Ctx) {
          and signature and every entry signature are verified; at the end every node inside proofs for a spread of \
          block/hash/seek/upgrade requests (partial upgrades included) is compared and the served signature verified. Stage 1: all \
          lengths 0..70 x 3 size patterns x 4 build modes. Stage 2: seeded-random sequences (up to ~600 blocks, sizes 0..4096). \
-         Stage 3: replicas filled by C03 sessions (every stored node must equal the reference). Non-trivial = length with >= 2 roots \
+         Stage 3: replicas filled by C03 sessions (every stored node must equal the reference). Stage 4: every \
+         crash state (journal prefix) of random writer histories, after reopening: persisted nodes complete for the recovered length \
+         and equal to the reference, signatures valid. Non-trivial = length with >= 2 roots \
          and >= 1 reopen or batch; distinct = block size vectors.",
     );
     ctx.assume("BLAKE2b, Ed25519 and CRC32 primitives come from the same upstream crates as /repo uses (trusted base); the scheme is re-implemented independently");
@@ -272,6 +320,7 @@ pub fn run(ctx: &Ctx) {
     ctx.extra("exhaustive_stage", json!({"lengths": "0..=70", "size_patterns": 3, "build_modes": 4, "cases": n, "exhaustive": true}));
     random_stage(ctx, "random", ctx.tier.pick(2_000, 40_000), tops_strategy, |ops: &Vec<TOp>, local| run_tops(ops, local));
     random_stage(ctx, "replicas", ctx.tier.pick(1_500, 30_000), || session_strategy(30), |ops: &Vec<SOp>, local| run_replica(ops, local));
+    random_stage(ctx, "crash-states", ctx.tier.pick(1_200, 25_000), || crate::props::c02::crash_history_strategy(14), |ops: &Vec<Op>, local| run_crash_states(ops, local));
     // a few large logs
     let big = ctx.tier.pick(2u64, 8u64);
     indexed_stage(
@@ -291,6 +340,9 @@ pub fn replay(case: &Value) -> Check {
     }
     if let Ok(ops) = serde_json::from_value::<Vec<TOp>>(case.clone()) {
         return run_tops(&ops, &mut l);
+    }
+    if let Ok(ops) = serde_json::from_value::<Vec<Op>>(case.clone()) {
+        return run_crash_states(&ops, &mut l);
     }
     let ops: Vec<SOp> = serde_json::from_value(case.clone()).map_err(|e| Failure::new("bad-replay", e.to_string()))?;
     run_replica(&ops, &mut l)
